@@ -105,6 +105,8 @@ def args_tour(crate):
                 vals = [P.PREFIX_TEXT[:(3 * i + 2) % (len(P.PREFIX_TEXT) + 1)] for i in range(ln)]
             elif kind == "blank":
                 vals = [i * 3 - 2 for i in range(ln)]
+            elif kind in P.LABEL_FORMS:
+                vals = [P.LABEL_FORMS[kind] % (i * 7 - 3) for i in range(ln)]
             else:
                 vals = ["s%d" % ((i * 7) % 31) if i % 3 else P.STRV[i % len(P.STRV)] for i in range(ln)]
             items.append(F("k%d_%s" % (n, kind), args=(kind, vals), bencher=(n % 2 == 0)))
